@@ -80,14 +80,14 @@ PROPS = {
         trusted=["Model.Dict hand-written from dict/parser.go and dict/util.go; the extractor's own XML reading of dict/default.go and its name interning"],
     ),
     "C10": dict(
-        domains=[("smserver", "hist", 1500, 20000), ("smserver", "cer", 500, 5000), ("smserver", "multi", 400, 4000), ("smclient", "dialall", 1, 1), ("smclient", "dial", 200, 3000)],
+        domains=[("smserver", "hist", 1500, 20000), ("smserver", "cer", 500, 5000), ("smserver", "multi", 400, 4000), ("smclient", "dialall", 1, 1), ("smclient", "dial", 200, 3000), ("smserver", "many", 1, 1), ("smclient", "redial", 1, 1)],
         relevant=["C10:"],
         theorems=["DV.Props.C10."+t for t in ["C10_gate","C10_after","C10_meta_after_write","C10_history","C10_builtin","C10_names_refused","C10_client_first_cea_decides","C10_client_gate_needs_success","C10_gate_gen","C10_gen"]],
-        gen_obligations=["Gen.smNewRegs","Gen.cmdCapabilitiesExchange","Gen.cmdDeviceWatchdog","Gen.handshakeGateType","Gen.handshakeGateBody"],
+        gen_obligations=["Gen.smNewRegs","Gen.cmdCapabilitiesExchange","Gen.cmdDeviceWatchdog","Gen.handshakeGateType","Gen.handshakeGateBody","Gen.channelSends"],
         trusted=["Model.SM hand-written from diam/sm/sm.go, cer.go, dwr.go, smparser/*.go, smpeer/metadata.go; dispatch through the C09 mux model"],
     ),
     "C11": dict(
-        domains=[("smserver", "cer", 2500, 40000), ("smserver", "hist", 800, 10000), ("smserver", "multi", 400, 5000)],
+        domains=[("smserver", "cer", 2500, 40000), ("smserver", "hist", 800, 10000), ("smserver", "multi", 400, 5000), ("smserver", "many", 1, 1)],
         relevant=["C11:"],
         theorems=["DV.Props.C11."+t for t in ["C11_accept_iff","C11_accept_meta","C11_reject_code","C11_cea_fields","C11_cea_identity","C11_cea_local_address","C11_gen"]],
         gen_obligations=["Gen.rcSuccess","Gen.rcNoCommonApplication","Gen.rcNoCommonSecurity","Gen.rcUnableToComply","Gen.relayAppId","Gen.cmdCapabilitiesExchange"],
@@ -147,10 +147,10 @@ PROPS = {
         trusted=CODEC_TRUST + ["Model.Sctp hand-written from diam/network_sctp.go (ReadAny, ReadStream, ReadAtLeast, verifyStreamBuff, bufferStreamData) and message.go readHeader/readBody; the kernel SCTP socket is replaced by the in-memory backend of the 'verif' hook (diam/verif_sctp.go): chunks are delivered in order, a chunk larger than the caller's buffer continues on the next read, every read carries stream information"],
     ),
     "C12": dict(
-        domains=[("smclient", "dialall", 1, 1), ("smclient", "dial", 400, 6000), ("smclient", "cea", 3000, 40000), ("smclient", "dialtcp", 1, 1)],
+        domains=[("smclient", "dialall", 1, 1), ("smclient", "dial", 400, 6000), ("smclient", "cea", 3000, 40000), ("smclient", "dialtcp", 1, 1), ("smclient", "redial", 1, 1)],
         relevant=["C12:"],
         theorems=["DV.Props.C12."+t for t in ["C12_bound","C12_outcome","C12_timeout_last","C12_stable","C12_noblock","C12_cer","C12_cea_accept","C12_duplicate_cea_counterexample","C12_late_failure_counterexample","C12_answers_by_connection","C12_gen"]],
-        gen_obligations=["Gen.handshakeAnswerHandlers","Gen.capErrc","Gen.ceaHandlerOnce","Gen.handshakeMakeCER","Gen.handshakeWrites","Gen.handshakeCloses","Gen.handshakeLoopCond","Gen.clientTimers","Gen.smDeadlineCalls"],
+        gen_obligations=["Gen.handshakeAnswerHandlers","Gen.capErrc","Gen.ceaHandlerOnce","Gen.handshakeMakeCER","Gen.handshakeWrites","Gen.handshakeCloses","Gen.handshakeLoopCond","Gen.clientTimers","Gen.smDeadlineCalls","Gen.channelSends"],
         trusted=CLIENT_TRUST,
     ),
     "C13": dict(
